@@ -67,6 +67,7 @@ def run_shard(prop: str, tier: str, seed: int, shard: int, nshards: int, replay=
     reach.start()
     try:
         if replay is not None:
+            ctx.replaying = True
             mod.replay(ctx, replay)
         else:
             mod.run(ctx)
